@@ -12,6 +12,7 @@ import (
 	"regexp"
 	"strconv"
 	"strings"
+	"syscall"
 
 	"github.com/sandover/ergo/internal/ergo"
 )
@@ -21,6 +22,9 @@ func extra(args []string) bool {
 	switch args[0] {
 	case "serve":
 		serve()
+		return true
+	case "fn-path":
+		fnPath(argU(args, 1, 1), int(argU(args, 2, 1500)))
 		return true
 	case "fn-json":
 		fnJSON(argU(args, 1, 1), int(argU(args, 2, 2000)), len(args) > 3 && args[3] == "all")
@@ -248,4 +252,116 @@ func fnJSON(seed uint64, n int, all bool) {
 		jsonCase(tag, s, lit)
 		tag++
 	}
+}
+
+var pathAtoms = []string{"/", "/", "/", ".", "..", "a", "b", "d", "f", ".ergo", ".ergox", "..x", "x..", "é", "", "sub", "deep", "nested", "...", " "}
+
+func genPath(r *rng) string {
+	n := 1 + r.n(7)
+	var sb strings.Builder
+	for i := 0; i < n; i++ {
+		sb.WriteString(pick(r, pathAtoms))
+		if r.p(45) {
+			sb.WriteString("/")
+		}
+	}
+	return sb.String()
+}
+
+func kindOf(p string) string {
+	info, err := os.Stat(p)
+	if err != nil {
+		if os.IsNotExist(err) {
+			return "missing"
+		}
+		// ENOTDIR and friends: the path cannot name anything
+		return "missing"
+	}
+	switch {
+	case info.IsDir():
+		return "dir"
+	case info.Mode().IsRegular():
+		return "file"
+	}
+	return "other"
+}
+
+func classifyPathErr(err error) string {
+	m := err.Error()
+	switch {
+	case strings.Contains(m, "must be relative"):
+		return "absolute"
+	case strings.Contains(m, "within project"):
+		return "outside"
+	case strings.Contains(m, "inside .ergo"):
+		return "in_ergo"
+	case strings.Contains(m, "does not exist"):
+		return "missing"
+	case strings.Contains(m, "not directory"), strings.Contains(m, "regular file"):
+		return "not_file"
+	case strings.Contains(m, "cannot access result file"):
+		return "access"
+	}
+	return "other:" + m
+}
+
+func fnPath(seed uint64, n int) {
+	r := &rng{s: seed}
+	root, _ := os.MkdirTemp("", "ergo-verif-path-")
+	root, _ = filepath.EvalSymlinks(root)
+	defer os.RemoveAll(root)
+	repo := filepath.Join(root, "proj")
+	for _, d := range []string{"proj/.ergo", "proj/d", "proj/sub/deep", "proj/nested/.ergo", "proj/nested/x", "proj/a b", "proj/filergo", "other"} {
+		os.MkdirAll(filepath.Join(root, d), 0755)
+	}
+	for _, f := range []string{"proj/a", "proj/d/f", "proj/.ergox", "proj/..x", "proj/x..", "proj/é", "proj/...", "proj/ ", "proj/filergo/.ergo", "proj/.ergo/plans.jsonl", "other/secret"} {
+		os.WriteFile(filepath.Join(root, f), []byte("x"), 0644)
+	}
+	syscall.Mkfifo(filepath.Join(repo, "fifo"), 0644)
+	os.Symlink(filepath.Join(root, "other/secret"), filepath.Join(repo, "link"))
+	// the whole tree for the model (absolute path → kind), symlinks followed
+	tree := J{}
+	filepath.Walk(root, func(p string, info os.FileInfo, err error) error {
+		if err == nil {
+			tree[p] = kindOf(p)
+		}
+		return nil
+	})
+	for i := 0; i < n; i++ {
+		p := genPath(r)
+		if r.p(10) {
+			p = pick(r, []string{"fifo", "link", "a", "d/f", "d", ".ergo/plans.jsonl", "sub/../a", "./a", "d//f", "../proj/a", "é", "a b", "", ".", "/etc/passwd", "nested/../a"})
+		}
+		vr, verr := ergo.VerifValidateResultPath(repo, p)
+		var v any
+		if verr != nil {
+			v = J{"err": classifyPathErr(verr)}
+		} else {
+			v = J{"ok": vr}
+		}
+		ans := J{"clean": filepath.Clean(p), "dir": filepath.Dir(p), "base": filepath.Base(p), "abs": filepath.IsAbs(p),
+			"join": filepath.Join(repo, p), "validate": v}
+		// discovery walk from a start spelled relative to a cwd inside the tree
+		cwd := pick(r, []string{repo, filepath.Join(repo, "sub"), filepath.Join(repo, "sub/deep"), filepath.Join(repo, "nested/x"), root, filepath.Join(repo, ".ergo"), filepath.Join(repo, "filergo")})
+		start := pick(r, []string{".", "..", "../..", "sub", "sub/deep", ".ergo", "./.ergo/", cwd, cwd + "/", filepath.Join(repo, "sub/deep"), filepath.Join(repo, ".ergo"),
+			filepath.Join(repo, "nested/x"), "nested", "nested/.ergo", "nosuch", filepath.Join(root, "other"), "filergo", p})
+		os.Chdir(cwd)
+		rr, rerr := ergo.VerifResolveErgoDir(start)
+		if rerr != nil {
+			if strings.Contains(rerr.Error(), "exists but is not a directory") {
+				ans["resolve"] = J{"err": "not_dir"}
+			} else if strings.Contains(rerr.Error(), "no .ergo directory") {
+				ans["resolve"] = J{"err": "not_found"}
+			} else if strings.HasPrefix(rerr.Error(), "stat ") {
+				ans["resolve"] = J{"err": "stat_err"}
+			} else {
+				ans["resolve"] = J{"err": "other:" + rerr.Error()}
+			}
+		} else {
+			ans["resolve"] = J{"ok": rr}
+		}
+		req := J{"op": "path", "tag": i, "p": cps(p), "repo": cps(repo), "tree": tree, "cwd": cps(cwd), "start": cps(start)}
+		emit(J{"req": req, "go": ans})
+	}
+	os.Chdir("/")
 }
